@@ -6,6 +6,7 @@ package harness
 // Generated scripts are fault-free by construction unless a property injects faults itself.
 
 import (
+	"encoding/json"
 	"fmt"
 
 	"pgregory.net/rapid"
@@ -358,4 +359,178 @@ func genLayout(t *rapid.T) Layout {
 	}
 	lay.Tape = rapid.SliceOfN(rapid.SampledFrom([]uint8{0, 0, 0, 0, 0, 0, 0, 1, 2, 3, 4, 5, 6, 7, 9, 13}), 200, 450).Draw(t, "tape")
 	return lay
+}
+
+// minimizeScript is a greedy structural minimiser: it removes nodes, statements, options, clauses, tags, conditions
+// and text parts one at a time, keeping every removal after which the case still fails the same way.
+func minimizeScript(sc *Script, fails func(*Script) bool) *Script {
+	clone := func(s *Script) *Script {
+		b, _ := json.Marshal(s)
+		var out Script
+		_ = json.Unmarshal(b, &out)
+		return &out
+	}
+	cur := clone(sc)
+	// a path-independent enumeration of edit sites: edits are tried by index until one full pass changes nothing
+	type edit func(s *Script) bool // applies the n-th edit of its kind; false when there is no such site
+	var bodies func(s *Script) []*[]*Stmt
+	bodies = func(s *Script) []*[]*Stmt {
+		var out []*[]*Stmt
+		var walk func(b *[]*Stmt)
+		walk = func(b *[]*Stmt) {
+			out = append(out, b)
+			for _, st := range *b {
+				for _, o := range st.Opts {
+					walk(&o.Body)
+				}
+				for _, c := range st.Clauses {
+					walk(&c.Body)
+				}
+				if st.HasElse {
+					walk(&st.Else)
+				}
+			}
+		}
+		for _, f := range s.Files {
+			for _, n := range f {
+				walk(&n.Body)
+			}
+		}
+		return out
+	}
+	try := func(apply func(s *Script) bool) bool {
+		cand := clone(cur)
+		if !apply(cand) {
+			return false
+		}
+		if fails(cand) {
+			cur = cand
+			return true
+		}
+		return false
+	}
+	for pass := 0; pass < 6; pass++ {
+		changed := false
+		// remove whole nodes (never the last one)
+		for fi := 0; fi < len(cur.Files); fi++ {
+			for ni := len(cur.Files[fi]) - 1; ni >= 0; ni-- {
+				fi, ni := fi, ni
+				if try(func(s *Script) bool {
+					if len(s.allNodes()) <= 1 || fi >= len(s.Files) || ni >= len(s.Files[fi]) {
+						return false
+					}
+					s.Files[fi] = append(s.Files[fi][:ni:ni], s.Files[fi][ni+1:]...)
+					if len(s.Files[fi]) == 0 {
+						s.Files = append(s.Files[:fi:fi], s.Files[fi+1:]...)
+					}
+					return len(s.Files) > 0
+				}) {
+					changed = true
+				}
+			}
+		}
+		// remove statements
+		for bi := 0; bi < len(bodies(cur)); bi++ {
+			for si := len(*bodies(cur)[bi]) - 1; si >= 0; si-- {
+				bi, si := bi, si
+				if try(func(s *Script) bool {
+					bs := bodies(s)
+					if bi >= len(bs) || si >= len(*bs[bi]) {
+						return false
+					}
+					b := bs[bi]
+					*b = append((*b)[:si:si], (*b)[si+1:]...)
+					return true
+				}) {
+					changed = true
+				}
+			}
+		}
+		// simplify statements in place
+		for bi := 0; bi < len(bodies(cur)); bi++ {
+			for si := 0; si < len(*bodies(cur)[bi]); si++ {
+				for kind := 0; kind < 6; kind++ {
+					bi, si, kind := bi, si, kind
+					for n := 0; n < 5; n++ {
+						n := n
+						if !try(func(s *Script) bool {
+							bs := bodies(s)
+							if bi >= len(bs) || si >= len(*bs[bi]) {
+								return false
+							}
+							st := (*bs[bi])[si]
+							switch kind {
+							case 0: // drop an option
+								if len(st.Opts) <= 1 || n >= len(st.Opts) {
+									return false
+								}
+								st.Opts = append(st.Opts[:n:n], st.Opts[n+1:]...)
+							case 1: // drop a clause / the else
+								if n == 0 && st.HasElse {
+									st.HasElse, st.Else = false, nil
+									return true
+								}
+								if len(st.Clauses) <= 1 || n >= len(st.Clauses) {
+									return false
+								}
+								st.Clauses = append(st.Clauses[:n:n], st.Clauses[n+1:]...)
+							case 2: // drop tags
+								if n != 0 || len(st.Tags) == 0 {
+									return false
+								}
+								st.Tags = nil
+							case 3: // drop an option's condition or tags
+								if n >= len(st.Opts) || (st.Opts[n].Cond == nil && len(st.Opts[n].Tags) == 0) {
+									return false
+								}
+								st.Opts[n].Cond, st.Opts[n].Tags = nil, nil
+							case 4: // shorten a line's text to its first part
+								if n != 0 || len(st.Text) <= 1 {
+									return false
+								}
+								st.Text = st.Text[:1]
+							case 5: // shorten an option's text
+								if n >= len(st.Opts) || len(st.Opts[n].Text) <= 1 {
+									return false
+								}
+								st.Opts[n].Text = st.Opts[n].Text[:1]
+							}
+							return true
+						}) {
+							break
+						}
+						changed = true
+					}
+				}
+			}
+		}
+		if !changed {
+			break
+		}
+	}
+	return cur
+}
+
+func minimizeFlow(c flowCase, stillFails func(flowCase) bool) flowCase {
+	c.Script = minimizeScript(c.Script, func(s *Script) bool {
+		cc := c
+		cc.Script = s
+		return stillFails(cc)
+	})
+	for len(c.Choices) > 0 { // drop trailing choices
+		cc := c
+		cc.Choices = c.Choices[:len(c.Choices)-1]
+		if !stillFails(cc) {
+			break
+		}
+		c = cc
+	}
+	if len(c.Junk) > 0 {
+		cc := c
+		cc.Junk = nil
+		if stillFails(cc) {
+			c = cc
+		}
+	}
+	return c
 }
